@@ -13,7 +13,7 @@ func init() {
 	register(&Property{
 		ID:         "C02",
 		Run:        runC02,
-		Explain:    "Static structural necessary conditions of the sending queues (memory and persistent) and the context-aware condition variable: (R1) must-lockset – every access to size/items/stopped/indices, the linked list and the cond's waiting counter happens under the owner's mutex (the cond's locker is the owner's mutex by construction); (R2) wake-up pairing – every store that can lower the size is followed on all paths by hasMoreSpace.Signal(), every enqueue by hasMoreElements.Signal(), stopped=true by Broadcast(); (R3) the enqueue effect is gated by the not-over-capacity side of `size+reqSize > capacity` (so a woken producer re-checks), blocking only under blockOnOverflow; (R4) size symmetry – what is added at enqueue is what the done object records and what completion subtracts; (R5) an Offer that returns an error has not handed anything over, zero-sized requests are not enqueued; (R6) token protocol of the cond – waiting-- in Signal/Broadcast is paired with a token send, a cancelled waiter consumes a token iff waiting==0 (blocking receive) and otherwise decrements; (R7) a pooled done object is recycled only by its last user.",
+		Explain:    "Static structural necessary conditions of the sending queues (memory and persistent) and the context-aware condition variable: (R1) must-lockset – every access to size/items/stopped/indices, the linked list and the cond's waiting set happens under the owner's mutex (the cond's locker is the owner's mutex by construction); (R2) wake-up pairing – every store that can lower the size is followed on all paths by hasMoreSpace.Signal(), every enqueue by hasMoreElements.Signal(), stopped=true by Broadcast(); (R3) the enqueue effect is gated by the not-over-capacity side of `size+reqSize > capacity` (so a woken producer re-checks), blocking only under blockOnOverflow; (R4) size symmetry – what is added at enqueue is what the done object records and what completion subtracts; (R5) an Offer that returns an error has not handed anything over, zero-sized requests are not enqueued; (R6) waiter-set protocol of the cond – Wait registers a channel of its own before it releases the lock, Signal/Broadcast wake by closing channels taken from the set and remove what they close; (R12) no blocking channel operation of the cond while the caller's lock is held; (R13) a cancelled waiter that was already signalled passes the signal on; (R7) a pooled done object is recycled only by its last user.",
 		NotDecided: "Exactly-once hand-off and FIFO under all interleavings, absence of lost wake-ups as a liveness property, wait-for-result routing: properties of interleavings of the cond's channel protocol which lockset/pairing analyses do not model.",
 		Assumes:    []string{"sync.Mutex / sync.Cond semantics", "component contract: Start happens-before Offer/Read"},
 	})
@@ -90,7 +90,7 @@ func instrSet(cs []ssa.CallInstruction) map[ssa.Instruction]bool {
 
 func runC02(c *Ctx) {
 	p := c.P
-	c.Rule("R1", "LOCK", "every access to the queues' mutable state (memory queue items/size/stopped, linked list head/tail/next, persistent queue indices/size/refs/stopped, cond.waiting) happens with the owning queue's mutex must-held; the cond's locker is the owner's mutex", 30)
+	c.Rule("R1", "LOCK", "every access to the queues' mutable state (memory queue items/size/stopped, linked list head/tail/next, persistent queue indices/size/refs/stopped, the cond's waiting set) happens with the owning queue's mutex must-held; the cond's locker is the owner's mutex", 30)
 	q := findQB(p)
 	if q == nil || q.mq == nil || q.cond == nil {
 		c.Anchor("queuebatch memory queue / cond / linked list types")
@@ -318,6 +318,7 @@ func runC02(c *Ctx) {
 	runC02Rest(c, q, funcs, lc)
 	runC02Resync(c, q, funcs)
 	runC02Chain(c, funcs)
+	runC02Round4(c)
 	runDoneHandOff(c, "R11")
 }
 
